@@ -25,7 +25,9 @@ import (
 // returning the deep nilability annotation of that typedef if found. Otherwise, it returns
 // ProduceTriggerNever to indicate that we assume in the default case the type is NOT deeply nilable
 func DeepNilabilityAsNamedType(typ types.Type) ProducingAnnotationTrigger {
-	t, ok := typ.(*types.Named)
+	// A type alias (`type A = L`) denotes the very same type as its right-hand side, so the
+	// annotations of the aliased named type apply.
+	t, ok := types.Unalias(typ).(*types.Named)
 	if !ok {
 		return &ProduceTriggerNever{}
 	}
